@@ -648,6 +648,11 @@ func fieldRead(v ssa.Value) (typ, field string, base ssa.Value, ok bool) {
 // boolIsField reports whether the (negation-peeled) boolean v is field `field` of a value
 // of named type `typ`, possibly merged through phis with the boolean constant constOther.
 func boolIsField(v ssa.Value, typ, field string, constOther bool) bool {
+	return boolIsFieldOf(v, typ, field, constOther, nil)
+}
+
+// boolIsFieldOf: boolIsField, the record the field is read from accepted by baseOK.
+func boolIsFieldOf(v ssa.Value, typ, field string, constOther bool, baseOK func(ssa.Value) bool) bool {
 	seen := map[ssa.Value]bool{}
 	hit := false
 	var rec func(v ssa.Value) bool
@@ -656,8 +661,8 @@ func boolIsField(v ssa.Value, typ, field string, constOther bool) bool {
 			return true
 		}
 		seen[v] = true
-		if t, f, _, ok := fieldRead(v); ok {
-			if t == typ && f == field {
+		if t, f, base, ok := fieldRead(v); ok {
+			if t == typ && f == field && (baseOK == nil || baseOK(base)) {
 				hit = true
 				return true
 			}
